@@ -24,7 +24,9 @@ def classifyMove (s : S) (kind : String) (mv : Move) : Option (Except String Op)
       if (mv.denom.startsWith "amm/pool/" && minter == "mod:amm") || (mv.denom == "stablestake/share" && minter == "mod:stablestake")
       then some (.ok (.shareMint mv.denom mv.amt)) else some (.error s!"share denom {mv.denom} minted by {minter}")
     | .native =>
-      if minter == "mod:commitment" && (kind == "cm.claimVesting" || kind == "cm.vestNow") then some (.ok (.vestingRelease mv.amt))
+      -- ClaimVesting / VestNow messages, and the same ClaimVesting run for the provider-rewards account by the estaking epoch hook
+      -- (x/estaking/keeper/provider_vesting.go) in begin-block
+      if minter == "mod:commitment" && (kind == "cm.claimVesting" || kind == "cm.vestNow" || kind == "beginBlock") then some (.ok (.vestingRelease mv.amt))
       else some (.error s!"native token minted by {minter} in {kind}")
     | _ => some (.error s!"{mv.denom} minted by {minter} in {kind}")
   else if mv.kind == "burn" then
